@@ -78,6 +78,9 @@ static CaseResult system_case(Tape &t)
 	// the password reaches the programs through -P or through the environment (IODINE_PASS / IODINED_PASS); passwords may contain '%'
 	if (t.chance(1, 3)) { static const char *PCT[] = {"%%", "%d", "%s", "%5c", "100%", "%x%x", "%%%%"}; std::string ins = PCT[t.below(7)]; size_t at = t.below((uint32_t)c.password.size() + 1); c.password.insert(at, ins); if (c.password.size() > 36) c.password.resize(36); }
 	c.pass_env_client = t.chance(1, 3); c.pass_env_server = t.chance(1, 3);
+	// -P and the environment both set, to different values: -P wins on both sides
+	if (!c.pass_env_client && t.chance(1, 3)) c.decoy_env_client = c.password.size() > 3 ? c.password.substr(0, 3) : std::string("zz");
+	if (!c.pass_env_server && t.chance(1, 3)) c.decoy_env_server = c.password.size() > 3 ? c.password.substr(0, 3) : std::string("zz");
 	c.raw_mode = true;
 	c.qtype = (int)t.below(8);   // 0 = autodetect
 	c.srv_seed = t.u32() | 1; c.cli_seed = t.u32() | 1;
@@ -267,9 +270,69 @@ static CaseResult prompt_case(Tape &t)
 	return r;
 }
 
+
+// scripted client against the REAL server: which login responses does it accept?  Exactly the documented digest for the challenge it
+// issued and its password -- whatever came before in the session (a refused attempt, an accepted one), and whatever the bytes of the
+// password beyond the 32nd are.
+static CaseResult server_case(Tape &t)
+{
+	CaseResult r;
+	scn::Config c;
+	c.password.clear();
+	size_t plen = (size_t)t.range(1, 40);
+	for (size_t i = 0; i < plen; i++) c.password += (char)t.range(0x21, 0x7e);
+	c.nclients = 0;
+	c.check_ip = t.chance(2, 3);
+	c.srv_seed = t.u32() | 1;
+	// -P wins over the environment: a different value in IODINED_PASS must not matter
+	bool decoy = t.chance(1, 3);
+	if (decoy) { c.decoy_env_server = t.chance(1, 2) ? "short" : c.password.substr(0, c.password.size() / 2) + "-and-something-else-that-is-long"; if (c.decoy_env_server == c.password) c.decoy_env_server += "x"; }
+	scn::Session s(c);
+	s.start_server();
+	scn::ScriptClient sc; sc.addr = sim::Addr::v4(192, 0, 2, 77, 5301); sc.domain = c.domain; sc.password = Bytes(c.password.begin(), c.password.end()); sc.attach();
+	sim::W.run_for(10000);
+	r.render = scn::fmt("server acceptance: password %zu bytes%s check_ip=%d", plen, decoy ? " (+ different IODINED_PASS in the environment)" : "", (int)c.check_ip);
+	r.cls("server-acceptance"); if (decoy) r.cls("-P-and-environment-both-set");
+	if (!sc.do_version()) { r.cls("no-version-ack"); return r; }
+	int natt = t.range(2, 7), n_wrong = 0, n_right = 0; bool had_right = false, wrong_after_right = false;
+	for (int a = 0; a < natt && r.ok; a++) {
+		Bytes pw = sc.password; uint32_t ch = sc.challenge;
+		int kind = (int)t.pick({4, 2, 2, 2, 2, 2, 1, 1});
+		uint8_t h[16];
+		bool expect = false; const char *what = "";
+		switch (kind) {
+		case 0: what = "documented digest"; expect = true; break;
+		case 1: what = "one digest bit flipped"; break;
+		case 2: what = "digest for challenge + 1"; ch = ch + 1; break;
+		case 3: what = "digest for challenge - 1"; ch = ch - 1; break;
+		case 4: { what = "one of the first 32 password bytes changed"; size_t k = t.below((uint32_t)std::min<size_t>(32, pw.size())); pw[k] ^= (uint8_t)(1 << t.below(7)); break; }
+		case 5: what = "password extended / changed beyond byte 32"; pw.resize(std::max<size_t>(pw.size(), 32), 0); pw.push_back((uint8_t)t.range(1, 255)); if (pw.size() > 34) pw[33] ^= 0x55; expect = true; break;
+		case 6: what = "all-zero digest"; break;
+		default: what = "random digest"; break;
+		}
+		ref::login_hash(pw, ch, h);
+		if (kind == 1) h[t.below(16)] ^= (uint8_t)(1 << t.below(8));
+		if (kind == 6) memset(h, 0, 16);
+		if (kind == 7) for (int i = 0; i < 16; i++) h[i] = (uint8_t)t.below(256);
+		uint8_t good[16]; ref::login_hash(sc.password, sc.challenge, good);
+		expect = !memcmp(h, good, 16);
+		uint16_t id = sc.send_name(refproto::name_login(sc.userid, h, sc.cmc++, sc.domain));
+		const scn::Rx *rx = sc.wait_answer(id);
+		std::string ans = rx && rx->ans.ok ? std::string(rx->ans.payload.begin(), rx->ans.payload.end()) : std::string("(no answer)");
+		bool accepted = ans.find('-') != std::string::npos && ans.compare(0, 4, "LNAK") != 0 && ans.compare(0, 3, "BAD") != 0 && ans != "(no answer)";
+		r.render += scn::fmt("\n  attempt %d: %s -> %.40s", a, what, ans.c_str());
+		if (expect) { n_right++; had_right = true; } else { n_wrong++; if (had_right) wrong_after_right = true; }
+		if (accepted && !expect) r.fail("C19:server-accepts-other-response", scn::fmt("the server accepted a login response that is not the documented digest for its challenge and password (%s%s)", what, had_right && !expect ? ", after an accepted login in the same session" : "") + "\n" + r.render);
+		if (!accepted && expect) r.fail("C19:server-refuses-documented-response", scn::fmt("the server did not accept the documented digest (%s): %s", what, ans.c_str()) + "\n" + r.render);
+	}
+	r.nontrivial = n_wrong >= 1 && n_right >= 1;
+	if (wrong_after_right) r.cls("wrong-response-after-an-accepted-login");
+	return r;
+}
+
 static CaseResult run_case(Tape &t)
 {
-	switch (t.pick({60, 1, 1, 2})) { case 1: return system_case(t); case 2: return client_case(t); case 3: return prompt_case(t); default: return unit_case(t); }
+	switch (t.pick({60, 1, 1, 2, 3})) { case 1: return system_case(t); case 2: return client_case(t); case 3: return prompt_case(t); case 4: return server_case(t); default: return unit_case(t); }
 }
 
 int main(int argc, char **argv)
